@@ -608,9 +608,14 @@ func (ctx *Context) evaluate() {
 			}
 
 			d := &details[len(details)-1]
-			dText := string(ctx.parser.data[d.Begin:d.End])
+			// 函数体/计算值使用缓存的字节码执行时没有 parser(也就没有源文本)，此时不改写 Expr
+			dText := ""
+			hasText := ctx.parser != nil && d.Begin >= 0 && d.Begin <= d.End && int(d.End) <= len(ctx.parser.data)
+			if hasText {
+				dText = string(ctx.parser.data[d.Begin:d.End])
+			}
 
-			if !regexp.MustCompile("[dD][优優劣][势勢]").MatchString(dText) {
+			if hasText && !regexp.MustCompile("[dD][优優劣][势勢]").MatchString(dText) {
 				s := &diceStates[diceStateIndex]
 				if s.times > 1 {
 					d.Expr = fmt.Sprintf("%dD%s", s.times, stack[e.top-1].ToString())
